@@ -59,6 +59,9 @@ class Comparer(object):
             raise Mismatch('%s: output body has fewer statements (%d < %d)' % (where, len(qb), len(pb)))
         i0 = _leading(qb)
         ins = qb[i0:i0 + k]
+        if k > 0 and i0 < _leading(pb):
+            # a docstring or __future__ import of the input now comes after an inserted statement
+            raise Mismatch('%s: a statement was inserted ahead of the docstring / __future__ import' % where)
         for s in ins:
             if not _is_alias_stmt(s):
                 raise Mismatch('%s: unexpected inserted statement %s' % (where, ast.dump(s)[:80]))
